@@ -141,7 +141,7 @@ def rule_r1_r3_r4(ctx: Ctx) -> None:
     })
     args: Dict[str, Any] = {}
     for p_ in crf.params:
-        args[p_] = [d["A"]] if "target" in p_ else ([] if ("list" in p_ or "director" in p_) else (None if "handler" in p_ else False))
+        args[p_] = [d["A"]] if "target" in p_ else (list(lookups) if ("lookup" in p_ and "definition" in p_) else ([] if ("list" in p_ or "director" in p_) else (None if "handler" in p_ else False)))
     raised = None
     try:
         call_fn(ctx, crf, [], args, hook=hook, keep=tuple(crf.module.functions))
@@ -264,9 +264,41 @@ def rule_r5(ctx: Ctx) -> None:
     ctx.check(not outside, "pydsdl", "no content access outside the definition class", "the text of a definition that is not being read is never looked at: not when a directory is listed, not to tell copies apart, not to pre-check anything", outside[0]["where"] if outside else "", outside[:4])
 
 
+def rule_r6_entry_points(ctx: Ctx) -> None:
+    """R1-R4 decide the reader and the resolver on a given target / lookup list.  This rule decides which lists the entry
+    points give them: read_namespace and read_files are evaluated from the source over an abstract file system - a root, a
+    second lookup directory that has the *same name* as the root (allowed by default), a third one - with only the reading of
+    a single file stubbed (reader_common.run_entry).  The files that get read must be exactly the targets and what they
+    reference; making every other file unreadable must change nothing."""
+    ctx.rule("C19.R6", "read_namespace / read_files, evaluated end to end over an abstract file system (root, a lookup directory of the same name, another lookup directory): the files read are exactly the targets and their transitive references, and the outcome is the same when every other definition is broken", min_instances=2)
+    files = {
+        "/w/ns/A.1.0.dsdl": [("ns.B", 1, 0), ("other.Z", 1, 0)], "/w/ns/B.1.0.dsdl": [], "/w/ns/X.1.0.dsdl": [], "/w/ns/sub/W.2.1.dsdl": [("ns.B", 1, 0)],
+        "/elsewhere/ns/Q.1.0.dsdl": [], "/elsewhere/ns/sub/R.1.0.dsdl": [("ns.Q", 1, 0)],
+        "/w/other/Z.1.0.dsdl": [("other.V", 1, 0)], "/w/other/V.1.0.dsdl": [], "/w/other/Y.1.0.dsdl": [],
+    }
+    P = APath
+    cases = [
+        ("read_namespace(/w/ns, [/elsewhere/ns, /w/other])", "read_namespace", [P("/w/ns"), [P("/elsewhere/ns"), P("/w/other")]], ["/w/ns/A.1.0.dsdl", "/w/ns/B.1.0.dsdl", "/w/ns/X.1.0.dsdl", "/w/ns/sub/W.2.1.dsdl", "/w/other/Z.1.0.dsdl", "/w/other/V.1.0.dsdl"]),
+        ("read_namespace(/w/other, [/w/ns])", "read_namespace", [P("/w/other"), [P("/w/ns")]], ["/w/other/Z.1.0.dsdl", "/w/other/V.1.0.dsdl", "/w/other/Y.1.0.dsdl"]),
+        ("read_files([/w/ns/A.1.0.dsdl], [/w/ns], [/elsewhere/ns, /w/other])", "read_files", [[P("/w/ns/A.1.0.dsdl")], [P("/w/ns")], [P("/elsewhere/ns"), P("/w/other")]], ["/w/ns/A.1.0.dsdl", "/w/ns/B.1.0.dsdl", "/w/other/Z.1.0.dsdl", "/w/other/V.1.0.dsdl"]),
+        ("read_files([/w/ns/sub/W.2.1.dsdl, /w/ns/X.1.0.dsdl], [/w/ns], [/w/other])", "read_files", [[P("/w/ns/sub/W.2.1.dsdl"), P("/w/ns/X.1.0.dsdl")], [P("/w/ns")], [P("/w/other")]], ["/w/ns/sub/W.2.1.dsdl", "/w/ns/X.1.0.dsdl", "/w/ns/B.1.0.dsdl"]),
+    ]
+    fn_rn = ctx.func("_namespace.read_namespace")
+    for label, entry, args, want in cases:
+        fn = ctx.func("_namespace." + entry)
+        r1 = R.run_entry(ctx, entry, args, files)
+        others = [p for p in files if p not in want]
+        r2 = R.run_entry(ctx, entry, args, files, broken=others)
+        ctx.count(2)
+        good = r1.raised is None and sorted(set(r1.reads)) == sorted(want) and r2.raised is None and sorted(set(r2.reads)) == sorted(want)
+        ctx.check(good, fn.short, label, "exactly the targets and what they transitively reference are read; a broken definition outside that closure changes nothing", fn.where(), {"files read": sorted(set(r1.reads)), "expected": sorted(want), "outcome": r1.raised or "a result", "outcome with every other file broken": r2.raised or "a result"})
+    _ = fn_rn
+
+
 def run(ctx: Ctx) -> None:
     ctx.attempt(rule_r1_r3_r4, ctx)
     ctx.attempt(rule_r2, ctx)
     ctx.attempt(rule_r5, ctx)
+    ctx.attempt(rule_r6_entry_points, ctx)
     ctx.assume("file names in lookup directories are inspected when the directory is listed (allowed by the property)")
     ctx.assume("the model of ReadableDSDLFile.read used for the namespace reader plays the documented protocol: dependencies are read with the same arguments and reported to the visitors; a build prints through the handler it was given")
